@@ -7,26 +7,41 @@ package types
 // generated size functions: only non-negativity is used by callers so far
 //@ func Packet.SizeVT
 //@   property C06 C07 C19 C20
-//@   trusted generated code; body verified separately for safety under C20
-//@   ensures result >= 0
+//@   note the nested stat's size has no upper bound in the model (map-range sum), so overflow is not checked here
+//@   ensures nonneg: n >= 0
 //@ func Stat.SizeVT
 //@   property C19 C20
-//@   trusted generated code; contains a map-range sum
-//@   ensures result >= 0
+//@   note the map-range loop has no visited-set model, so the sum is unbounded in the model: overflow is not checked here
+//@   loop 0 invariant nonneg: n >= 0
+//@   ensures nonneg: n >= 0
 
+//@ func Packet.Reset
+//@   property C07 C20
+//@   trusted generated code (stores the zero value and re-registers the message with the protobuf runtime)
+//@   modifies *x
+//@   ensures x != nil ==> x.Type == 0 && x.Stat == nil && x.ID == 0 && x.Data == nil
+
+// reuse of a packet keeps the payload's backing array (length 0) and zeroes the rest
 //@ func Packet.ResetVT
 //@   property C07 C20
-//@   trusted generated code (calls into the protobuf runtime)
 //@   modifies *m
+//@   ensures reset: m != nil ==> m.Type == 0 && m.Stat == nil && m.ID == 0 && len(m.Data) == 0 && ref(m.Data) == old(ref(m.Data))
 //@ func Stat.MarshalToSizedBufferVT
 //@   property C19 C20
 //@   trusted generated code
 //@   modifies dAtA[*]
 
 // Clone returns a fresh deep copy (generated CloneVT; maps and slices are copied)
+//@ func Stat.CloneVT
+//@   property C01 C05 C20
+//@   modifies array byte
+//@   ensures copy: m != nil ==> result != nil && fresh(result) && result.Path == m.Path && result.Mode == m.Mode && result.Uid == m.Uid && result.Gid == m.Gid && result.Size == m.Size && result.ModTime == m.ModTime && result.Linkname == m.Linkname && result.Devmajor == m.Devmajor && result.Devminor == m.Devminor
+//@   ensures own_xattrs: m != nil && m.Xattrs != nil ==> result.Xattrs != nil && fresh(result.Xattrs)
+//@   ensures nilcopy: m == nil ==> result == nil
+
 //@ func Stat.Clone
 //@   property C01 C05
-//@   trusted generated code (CloneVT)
+//@   modifies array byte
 //@   ensures copy: s != nil ==> result != nil && fresh(result) && result.Path == s.Path && result.Mode == s.Mode && result.Uid == s.Uid && result.Gid == s.Gid && result.Size == s.Size && result.ModTime == s.ModTime && result.Linkname == s.Linkname && result.Devmajor == s.Devmajor && result.Devminor == s.Devminor
 //@   ensures nilcopy: s == nil ==> result == nil
 
